@@ -136,19 +136,31 @@ func checkC15(e *Engine, r *Report) {
 		}
 		// CommitMultiStore condition
 		for _, c := range callsIn(cm, false, func(c ssa.CallInstruction) bool { return isMethodNamed(c, "DestroyAccount") }) {
-			var gs []Guard
-			for _, i := range ifs(cm) {
-				// `_, marked := d.selfDestructed[a]` → Extract #1 of a Lookup on the selfDestructed field
-				if ex, ok := i.Cond.(*ssa.Extract); ok && ex.Index == 1 {
-					if lk, ok := ex.Tuple.(*ssa.Lookup); ok && lk.CommaOk {
-						if fs := fieldsOnChain(lk.X, e.Named(pkgEvmVM, "cStateDb")); len(fs) == 1 && fs[0].Name() == "selfDestructed" {
-							gs = append(gs, Guard{If: i, Survive: 0})
+			baseGuards := func(f *ssa.Function) []Guard {
+				var gs []Guard
+				for _, i := range ifs(f) {
+					// `_, marked := d.selfDestructed[a]` → Extract #1 of a Lookup on the selfDestructed field
+					if ex, ok := i.Cond.(*ssa.Extract); ok && ex.Index == 1 {
+						if lk, ok := ex.Tuple.(*ssa.Lookup); ok && lk.CommaOk {
+							if fs := fieldsOnChain(lk.X, e.Named(pkgEvmVM, "cStateDb")); len(fs) == 1 && fs[0].Name() == "selfDestructed" {
+								gs = append(gs, Guard{If: i, Survive: 0})
+							}
 						}
 					}
 				}
+				return append(gs, boolCallGuards(f, true, func(x *ssa.Call) bool {
+					return isCallTo(x, CallSpec{pkgEvmVM, "cStateDb", "Empty"}) || isCallTo(x, CallSpec{pkgEvmVM, "AccountTracker", "Has"})
+				})...)
 			}
+			isBaseVal := func(v ssa.Value) bool {
+				x, ok := v.(*ssa.Call)
+				return ok && (isCallTo(x, CallSpec{pkgEvmVM, "cStateDb", "Empty"}) || isCallTo(x, CallSpec{pkgEvmVM, "AccountTracker", "Has"}))
+			}
+			gs := baseGuards(cm)
+			// the condition may have been extracted into a private predicate `if d.shouldDestroy(addr, …)`
 			gs = append(gs, boolCallGuards(cm, true, func(x *ssa.Call) bool {
-				return isCallTo(x, CallSpec{pkgEvmVM, "cStateDb", "Empty"}) || isCallTo(x, CallSpec{pkgEvmVM, "AccountTracker", "Has"})
+				h := x.Call.StaticCallee()
+				return privHelper(pkgEvmVM)(h) && boolFnTrueOnlyUnder(h, baseGuards(h), isBaseVal)
 			})...)
 			r.Check(mustPass(cm, c, gs), "CommitMultiStore › destroy only self-destructed or empty", e.Pos(c.Pos()), "DestroyAccount under selfDestructed∋a || Empty(a)", "CommitMultiStore destroys a touched account that neither self-destructed nor is empty")
 			// Empty branch requires deleteEmptyObjects
@@ -426,64 +438,87 @@ func checkC15(e *Engine, r *Report) {
 			hasSeq = true
 		}
 		r.Check(hasSeq && all(gSeq), "IsEmptyAccount › nonce", e.Pos(fn.Pos()), "true only if the account is absent or its sequence is 0", "an account with a non-zero nonce can be reported empty")
-		// storage
-		var gState []Guard
+		// storage: a flag set by the ForEachStorage callback (in IsEmptyAccount or in a single-site private helper that returns it)
 		type flagAfter struct {
 			a *ssa.Alloc
 			c ssa.CallInstruction
 		}
-		var flags []flagAfter
-		for _, c := range callsTo(fn, false, CallSpec{pkgEvmKeeper, "Keeper", "ForEachStorage"}) {
-			args := c.Common().Args
-			mc, ok := args[len(args)-1].(*ssa.MakeClosure)
-			if !ok || !fromAddr(args[len(args)-2]) {
-				continue
-			}
-			for _, b := range mc.Bindings {
-				a, ok := b.(*ssa.Alloc)
-				if !ok {
+		stReg := e.privateRegion(fn)
+		flagsOf := map[*ssa.Function][]flagAfter{}
+		for _, f := range stReg.Fns {
+			for _, c := range callsTo(f, false, CallSpec{pkgEvmKeeper, "Keeper", "ForEachStorage"}) {
+				args := c.Common().Args
+				mc, ok := args[len(args)-1].(*ssa.MakeClosure)
+				if !ok || !stReg.BackSlice(args[len(args)-2], SliceOpts{ThroughCallArgs: alwaysThrough}).HasValue(addr) {
 					continue
 				}
-				// closure stores true into the captured flag
-				setsTrue := false
-				allInstrs(mc.Fn.(*ssa.Function), false, func(_ *ssa.Function, _ *ssa.BasicBlock, in ssa.Instruction) {
-					if st, ok := in.(*ssa.Store); ok {
-						if v, isB := constBool(st.Val); isB && v {
-							if _, isFV := st.Addr.(*ssa.FreeVar); isFV {
-								setsTrue = true
+				for _, b := range mc.Bindings {
+					a, ok := b.(*ssa.Alloc)
+					if !ok {
+						continue
+					}
+					// closure stores true into the captured flag
+					setsTrue := false
+					allInstrs(mc.Fn.(*ssa.Function), false, func(_ *ssa.Function, _ *ssa.BasicBlock, in ssa.Instruction) {
+						if st, ok := in.(*ssa.Store); ok {
+							if v, isB := constBool(st.Val); isB && v {
+								if _, isFV := st.Addr.(*ssa.FreeVar); isFV {
+									setsTrue = true
+								}
 							}
 						}
-					}
-				})
-				if !setsTrue {
-					continue
-				}
-				for _, i := range ifs(fn) {
-					if u, ok := i.Cond.(*ssa.UnOp); ok && u.Op == token.MUL && u.X == ssa.Value(a) && dominatesInstr(c, i) {
-						gState = append(gState, Guard{If: i, Survive: 1})
+					})
+					if setsTrue {
+						flagsOf[f] = append(flagsOf[f], flagAfter{a, c})
 					}
 				}
-				flags = append(flags, flagAfter{a, c})
 			}
 		}
-		// `return !anyState`: the returned value itself is the negated flag, read after the iteration
-		negFlag := func(ret *ssa.Return) bool {
-			n, ok := ret.Results[0].(*ssa.UnOp)
-			if !ok || n.Op != token.NOT {
-				return false
-			}
-			u, ok := n.X.(*ssa.UnOp)
-			if !ok || u.Op != token.MUL {
-				return false
-			}
-			for _, fl := range flags {
-				if u.X == ssa.Value(fl.a) && dominatesInstr(fl.c.(ssa.Instruction), u) {
-					return true
+		// isFlagVal: v is the flag read after the iteration, or the result of a region helper all of whose returns are
+		var isFlagVal func(v ssa.Value, depth int) bool
+		isFlagVal = func(v ssa.Value, depth int) bool {
+			if u, ok := v.(*ssa.UnOp); ok && u.Op == token.MUL {
+				for _, fl := range flagsOf[u.Parent()] {
+					if u.X == ssa.Value(fl.a) && dominatesInstr(fl.c.(ssa.Instruction), u) {
+						return true
+					}
 				}
+				return false
+			}
+			if c, ok := v.(*ssa.Call); ok && depth > 0 {
+				h := c.Call.StaticCallee()
+				if h == nil || h == fn || !stReg.in[h] {
+					return false
+				}
+				rets := returnsOf(h)
+				if len(rets) == 0 {
+					return false
+				}
+				for _, ret := range rets {
+					if len(ret.Results) != 1 || !isFlagVal(ret.Results[0], depth-1) {
+						return false
+					}
+				}
+				return true
 			}
 			return false
 		}
-		okState := len(trueRets) > 0 && (len(gState) > 0 || len(flags) > 0)
+		var gState []Guard
+		for _, i := range ifs(fn) {
+			if isFlagVal(i.Cond, 2) {
+				gState = append(gState, Guard{If: i, Survive: 1})
+			}
+		}
+		// `return !anyState` / `return !k.hasAnyStorage(ctx, addr)`: the returned value itself is the negated flag
+		negFlag := func(ret *ssa.Return) bool {
+			n, ok := ret.Results[0].(*ssa.UnOp)
+			return ok && n.Op == token.NOT && isFlagVal(n.X, 2)
+		}
+		nFlags := 0
+		for _, fl := range flagsOf {
+			nFlags += len(fl)
+		}
+		okState := len(trueRets) > 0 && nFlags > 0
 		for _, ret := range trueRets {
 			if !(len(gState) > 0 && mustPass(fn, ret, gState)) && !negFlag(ret) {
 				okState = false
@@ -586,4 +621,41 @@ func checkC15(e *Engine, r *Report) {
 		r.Check(send != nil && brn != nil && dominatesInstr(send, brn), "burnCoins › debit through SendCoinsFromAccountToModule", e.Pos(bc.Pos()), "SendCoinsFromAccountToModule then BurnCoins", "burnCoins does not debit the account through SendCoinsFromAccountToModule before burning")
 		r.Count("bank_calls_in_vm", n)
 	})
+}
+
+// destroyBurnsAllBalances: every normal exit of DestroyAccount has passed burnCoins(addr, GetAllBalances(addr)) unless all
+// balances were zero (decided on the supergraph of DestroyAccount and its private helpers). Shared by C15-R5 and C04-R2:
+// CreateAccount re-mints the carried-over balances on the strength of this burn.
+func destroyBurnsAllBalances(e *Engine) (bool, string) {
+	da := e.Fn(pkgEvmVM, "cStateDb.DestroyAccount")
+	addrP := da.Params[1]
+	reg := e.privateRegion(da)
+	sg := reg.Supergraph()
+	burn := reg.First(func(c ssa.CallInstruction) bool { return isCallTo(c, CallSpec{pkgEvmVM, "cStateDb", "burnCoins"}) })
+	if burn == nil {
+		return false, "DestroyAccount never burns"
+	}
+	gZero := reg.BoolCallGuards(true, func(c *ssa.Call) bool {
+		return isMethodNamed(c, "IsZero") && backSlice(recvOperand(c), SliceOpts{}).Has(func(v ssa.Value) bool {
+			cc, ok := v.(*ssa.Call)
+			return ok && isMethodNamed(cc, "GetAllBalances")
+		})
+	})
+	rets := returnsOf(da)
+	if len(rets) == 0 {
+		return false, "DestroyAccount has no return"
+	}
+	for _, ret := range rets {
+		if !sg.PassesOr(ret, burn, gZero) {
+			return false, "an exit of DestroyAccount (" + e.Pos(ret.Pos()) + ") is reachable without burning the account's balances"
+		}
+	}
+	args := burn.Common().Args
+	if !backSlice(args[len(args)-1], SliceOpts{}).Has(func(v ssa.Value) bool {
+		cc, ok := v.(*ssa.Call)
+		return ok && isMethodNamed(cc, "GetAllBalances") && reg.Slice(cc.Call.Args[len(cc.Call.Args)-1]).HasValue(addrP)
+	}) {
+		return false, "the burnt amount is not GetAllBalances of the destroyed address"
+	}
+	return true, ""
 }
